@@ -12,7 +12,7 @@ TIMEOUT_S = 900
 RULE = ('cases = (array rank d, global shape, process grid, layout-set family, payload dtype, buf given/not); inside a case '
         'every ordered (source,dest) pair incl. source==dest is executed on every simulated rank with arrays of exactly '
         'bufferSize whose dead parts are poisoned; oracle = exact equality with the slice of the global array 1+ravel(g) '
-        '(and bit-identical source when buf is given); an evaluation is one (case, pair); non-trivial = the pair needs '
+        '(and bit-identical source when buf is given); with buf given every pair is requested twice on the same handler; an evaluation is one (case, pair); non-trivial = the pair needs '
         'communication (a distributed position with >1 process changes its dimension) and some distributed extent is not '
         'divisible by its process count; sets the constructor rejects ("could not be connected") are counted separately')
 ASSUMPTIONS = ['simmpi Alltoall / Create_cart / Sub semantics', 'rank-local code is atomic between MPI calls',
@@ -139,6 +139,10 @@ def run_case(case):
     pairs = [(a, b) for a in names for b in names]
     P = lay.poison_value(dtype)
     usebuf = case['buf']
+    if usebuf:
+        # every ordered pair is requested a second time on the same handler (in reverse order of visit): nothing a transpose
+        # leaves behind in the handler (route tables, scratch state) may change the next one
+        pairs = pairs + pairs[::-1]
 
     def make_ctx(r):
         return getLayoutHandler(MPI.COMM_WORLD, L, nprocs, eta)
